@@ -313,6 +313,42 @@ impl Field {
         )
     }
 
+    /// Fields whose value is read from the file itself (content, embedded metadata, extended attributes).
+    pub fn reads_file_content(&self) -> bool {
+        matches!(
+            self,
+            Field::HasXattrs
+                | Field::Capabilities
+                | Field::IsShebang
+                | Field::Width
+                | Field::Height
+                | Field::Duration
+                | Field::Bitrate
+                | Field::Freq
+                | Field::Title
+                | Field::Artist
+                | Field::Album
+                | Field::Year
+                | Field::Genre
+                | Field::ExifDateTime
+                | Field::ExifGpsAltitude
+                | Field::ExifGpsLatitude
+                | Field::ExifGpsLongitude
+                | Field::ExifMake
+                | Field::ExifModel
+                | Field::ExifSoftware
+                | Field::ExifVersion
+                | Field::LineCount
+                | Field::Mime
+                | Field::IsBinary
+                | Field::IsText
+                | Field::Sha1
+                | Field::Sha256
+                | Field::Sha512
+                | Field::Sha3
+        )
+    }
+
     pub fn is_colorized_field(&self) -> bool {
         matches!(self, Field::Name)
     }
